@@ -233,6 +233,11 @@ func mutate(rng *core.Rng, src string, k int) string {
 // localsHeavy are Eval-level snippets written so that every fusion fires on
 // locals inside functions and blocks, including error paths.
 var c02Snippets = []string{
+	// case values and conditions that end in local +- constant (each is optimized on its own)
+	`func f(base int, x int) string { switch x { case base + 1: return "next"; case base - 1, base + 2: return "near"; case base: return "same" }; return "far" }; r := []string{f(5, 6), f(5, 4), f(5, 7), f(5, 5), f(5, 9)}; r`,
+	`func f(n int) int { t := 0; for i := n - 1; i < n + 2; i++ { if i == n + 1 { t += 100 }; switch { case i > n - 1: t += i + 1; default: t -= 1 } }; return t }; r := f(3); r`,
+	// a missing string-map entry used as a string
+	`func f(k string) string { m := map[string]string{"a": "x"}; return "[" + m["zz"] + m["a"] + m[k] + "]" }; g := map[string]string{}; r := []string{f("a"), f("q"), "<" + g["none"] + ">"}; r`,
 	// a package-level variable of function type reassigned between two executions of one call site
 	`func f1(a int) int { return a + 10 }; func f2(a int) int { return a * 20 }; var fv = f1; func run() []int { r := []int{}; for i := 1; i < 4; i++ { r = append(r, fv(i)); if i == 1 { fv = f2 } else { fv = f1 } }; return r }; out := run(); out`,
 	`func f1(a int) int { return a + 10 }; func f2(a int) int { return a * 20 }; fv := f1; s := 0; for i := 0; i < 4; i++ { s += fv(i); fv = f2 }; s`,
